@@ -5,8 +5,11 @@ RULE = ('the C09 histories; after every operation the key indexes of the session
         '(every entry maps a key to a live object holding that key; every live object is reachable under its primary '
         'key and its non-None unique / composite keys), and every object obtained through Entity[pk], get(), select(), '
         'navigation, collection iteration and to_dict() must be the very Python object already held for that row. '
-        'Non-trivial and distinct as for C09.')
+        'Non-trivial and distinct as for C09.  Fault kind "peer write" (every 4th history, see C09): after a peer '
+        'process changed rows behind the session (key value emptied and handed to another row, row deleted, column '
+        'changed) and the session read rows again, the index invariants still hold after every operation that returned.')
 
 
 def main(tier, seed):
-    return seqcommon.main_for('C11', 'exploration', RULE, ['keys', 'reads', 'default', 'fail'], tier, seed)
+    return seqcommon.main_for('C11', 'exploration', RULE, ['keys', 'reads', 'default', 'fail'], tier, seed,
+                             extra_gens=[seqcommon.peer_gen('C11', every=4)])
